@@ -9,7 +9,7 @@ import ast
 from fractions import Fraction
 
 from .poly import (Rat, C, fn, mk_atom, REG, gamma, lem_abs, lem_min, lem_max, lem_exp, lem_log, lem_sqrt, lem_pow,
-                   vkey, subst)
+                   vkey, subst, lem_odd, lem_cut)
 from .model import Func, Cls, CannotAnalyse, num_fraction, const_fold
 
 
@@ -599,6 +599,11 @@ class Evaluator:
 
     def global_name(self, name):
         mod = self.frames[-1].module
+        kls = getattr(self.frames[-1], 'cls', None)
+        if kls is not None and name in kls.class_assigns:       # default values evaluated in the class body scope
+            v = const_fold(kls.class_assigns[name], mod, self.repo)
+            if v is not None:
+                return Rat.const(v)
         r = self.repo.resolve_name(mod, name)
         if isinstance(r, tuple) and r[0] == 'const':
             v = const_fold(r[1], r[2], self.repo)
@@ -853,6 +858,22 @@ class Evaluator:
             return lem_exp(self.num(a[0]), 'exp')
         if name == 'sqrt' and len(a) == 1:
             return lem_sqrt(self.num(a[0]))
+        if name in ('arcsinh', 'asinh') and len(a) == 1:
+            return lem_odd('asinh', self.num(a[0]))
+        if name == 'outer' and len(a) == 2:
+            # numpy broadcasting roles (DESIGN 2.5): outer(x, ones(n))[c,p] = x[c] (cut role);
+            # outer(ones(n), x)[c,p] = x[p] = what a bare 1-D x broadcasts to in a 2-D context (pump role = bare)
+            a0 = a[0].single_atom() if isinstance(a[0], Rat) else None
+            a1 = a[1].single_atom() if isinstance(a[1], Rat) else None
+            if a1 is not None and a1.kind == 'fn' and a1.name == 'ones' and isinstance(a[0], Rat):
+                return lem_cut(a[0])
+            if a0 is not None and a0.kind == 'fn' and a0.name == 'ones' and isinstance(a[1], Rat):
+                return a[1]
+        if name == 'ones' and len(a) == 1 and isinstance(a[0], (list, tuple)) and len(a[0]) == 2:
+            return C(1)          # all-ones matrix: the scalar 1 under element-wise arithmetic
+        if name == 'diag' and len(a) == 1 and isinstance(a[0], Rat) and a[0].single_atom() is not None and \
+                a[0].single_atom().name == 'ones':
+            return Rat.sym('IDENTITY')
         if name == 'square' and len(a) == 1:
             return self.num(a[0]).pow(2)
         if name == 'negative' and len(a) == 1:
